@@ -246,4 +246,26 @@ PROPERTIES = {
                  J("C14_translate", variant="san-dm1", quick={"cases": 6, "shards": 4, "max_size": 40}, thorough={"cases": 150, "shards": 8, "max_size": 60},
                    env={"VERIF_TMP": "/verif/build/run"})],
     },
+    "C15": {
+        "rule": "rapidcheck, three subs. 'threads': 2-7 non-interacting cells (growth rates incl. negative, l_min in {0.5, 0.3, 0.2} edge so "
+                "that remeshing happens), 3-14 iterations, run with 1 thread twice (repeatability) and with 2-3 thread counts from "
+                "{2,3,5,8,16} under a generated sleep plan (0-1500 us at the hook-H3 scheduling points): digests of positions, momenta, "
+                "connectivity, ids and statistics (wall-clock column removed) must be bit-identical. 'divide': cell_divider::run on 2-10 "
+                "cells with a generated eligible subset, 2-16 threads, sleep plans, the resize window held open 0.2-5 ms: no READ of the "
+                "population list may overlap a RESIZE by another thread; population size / ids / untouched cells / validity checked. "
+                "'exceptions': parallel_exception_handler with 0-200 elements and 0-5 throwing positions of two exception classes, "
+                "refine_meshes with collapsing cells and mesh_writer::write with NaN coordinates at generated list positions, 1-16 threads. "
+                "Non-trivial = remeshing happened and >= 2 thread counts compared / >= 2 simultaneous divisions / >= 2 throwing elements "
+                "(or a failing real user); distinct = hash of the case.",
+        "min_nontrivial": 20,
+        "assumptions": ["interleavings are sampled through generated sleep plans and OS scheduling, not enumerated",
+                        "the READ / RESIZE events are the guarded list-access hooks in cell_divider::run (H3)",
+                        "interacting tissues may legitimately depend on the schedule (forces are accumulated without ordering) and are not compared"],
+        "jobs": [J("C15_threads", subs=["threads"], quick={"cases": 6, "shards": 4, "max_size": 40}, thorough={"cases": 300, "shards": 4, "max_size": 60},
+                   env={"VERIF_TMP": "/verif/build/run"}, threads=4),
+                 J("C15_threads", subs=["divide"], quick={"cases": 15, "shards": 4, "max_size": 40}, thorough={"cases": 600, "shards": 4, "max_size": 60},
+                   env={"VERIF_TMP": "/verif/build/run"}, threads=4),
+                 J("C15_threads", subs=["exceptions"], quick={"cases": 150, "shards": 2, "max_size": 40}, thorough={"cases": 6000, "shards": 4, "max_size": 60},
+                   env={"VERIF_TMP": "/verif/build/run"}, threads=4)],
+    },
 }
